@@ -130,7 +130,7 @@ def _one(seed):
 def run(tier):
   ck = Check('C05', tier)
   ck.prove('props/C05.v', gen_targets=[], extra=['harness/RunTBR.vo'])
-  n = 200 if tier == 'quick' else 5000
+  n = common.sz(tier, 200, 5000)
   res = common.pmap(_one, [ck.seed * 100003 + 5 * 1009 + i for i in range(n)], chunksize=4)
   terms, owners, known = [], [], 0
   for out in res:
